@@ -571,6 +571,15 @@ impl FunctionCompiler<'_> {
                 if let Some(op) = assign_body.quick_assign_op {
                     let res = self.compile_binary(assign_body.dest, assign_body.value, op);
 
+                    // the operation was done in the larger of the two operand types,
+                    // which might be wider than the destination
+                    let value_ty = &self.tys[self.loc][assign_body.value];
+                    let max_ty: Intern<Ty> = dest_ty
+                        .max(value_ty)
+                        .expect("hir_ty would've caught this")
+                        .into();
+                    let res = self.cast(res, max_ty, *dest_ty);
+
                     assert!(!dest_ty.is_aggregate());
 
                     dest.write_all(res, *dest_ty, self.module, &mut self.builder);
